@@ -48,7 +48,11 @@ def configs(tier, seed):
         for shape in shapes:
             for ax in _axes(fn, shape):
                 for x in _fmts(12):
-                    allc.append(dict(fn=fn, x=list(x), shape=shape, axis=ax))
+                    if fn in ('trace', 'diagonal'):
+                        for off in (-1, 0, 1):            # (offset diagonals of square and non-square matrices)
+                            allc.append(dict(fn=fn, x=list(x), shape=shape, axis=ax, offset=off))
+                    else:
+                        allc.append(dict(fn=fn, x=list(x), shape=shape, axis=ax))
     for c in C.pick(allc, 260 if tier == 'quick' else 2600, rng):
         out.append(dict(c, route=rng.choice(('numpy', 'method'))))
     pc = []
@@ -117,7 +121,10 @@ def run(F, cfg, inp):
     elif fn == 'clip':
         lo, hi = C.value_of(F, inp['lo'], fx), C.value_of(F, inp['hi'], fx)
         z = np_.clip(x, lo, hi) if route == 'numpy' else x.clip(lo, hi)
-    elif fn in ('transpose', 'trace', 'diagonal'):
+    elif fn in ('trace', 'diagonal'):
+        off = cfg.get('offset', 0)
+        z = getattr(np_, fn)(x, offset=off) if route == 'numpy' else getattr(x, fn)(offset=off)
+    elif fn == 'transpose':
         z = getattr(np_, fn)(x) if route == 'numpy' else getattr(x, fn)()
     elif fn == 'sort':
         z = np_.sort(x, axis=ax) if route == 'numpy' else x.sort(axis=ax)
@@ -213,7 +220,8 @@ def spec(cfg, inp):
         return (c, r), [(a[i * c + j], -fx) for j in range(c) for i in range(r)]
     if fn in ('diagonal', 'trace'):
         r, c = shape
-        d = [a[i * c + i] for i in range(min(r, c))]
+        off = cfg.get('offset', 0)
+        d = [a[i * c + (i + off)] for i in range(r) if 0 <= i + off < c]
         if fn == 'diagonal':
             return (len(d),), [(v, -fx) for v in d]
         return (), [(_fold(T.iadd, d), -fx)]
